@@ -109,19 +109,34 @@ impl CountComputer {
                 let total_kmers_so_far_clone = Arc::clone(&total_kmers_so_far);
 
                 scope.spawn(move |_| {
+                    #[cfg(kmertools_verif)]
+                    ktio::verif::point("start", 0);
                     loop {
+                        #[cfg(kmertools_verif)]
+                        ktio::verif::point("check", 0);
                         // when limit reached exit without further reads
                         if total_kmers_so_far_clone.load(Ordering::Relaxed)
                             > (1_000_000_000_f64 * self.memory_ceil_gb / 8.0) as u64
                         {
                             break;
                         }
+                        #[cfg(kmertools_verif)]
+                        ktio::verif::point("take", 0);
                         let record = { records_arc_clone.lock().unwrap().next() };
                         if let Some(record) = record {
                             pbar.inc(1);
                             total_records_clone.fetch_add(1, Ordering::Acquire);
                             for (fmer, rmer) in KmerGenerator::new(&record.seq, self.ksize) {
                                 let min_mer = min(fmer, rmer);
+                                #[cfg(kmertools_verif)]
+                                {
+                                    ktio::verif::point("inc", min_mer as i64);
+                                    ktio::verif::log(ktio::verif::Ev::Index {
+                                        site: "counter.part",
+                                        idx: (min_mer % self.n_parts) as usize,
+                                        len: counts_table_arc_clone.len(),
+                                    });
+                                }
                                 unsafe {
                                     counts_table_arc_clone
                                         .get_unchecked((min_mer % self.n_parts) as usize)
@@ -131,6 +146,8 @@ impl CountComputer {
                                 }
                             }
 
+                            #[cfg(kmertools_verif)]
+                            ktio::verif::point("add", record.n as i64);
                             total_kmers_so_far_clone
                                 .fetch_add(record.seq.len() as u64, Ordering::Relaxed);
                         } else {
@@ -138,6 +155,8 @@ impl CountComputer {
                             break;
                         }
                     }
+                    #[cfg(kmertools_verif)]
+                    ktio::verif::point("exit", 0);
                 });
             }
         });
@@ -231,6 +250,11 @@ impl CountComputer {
         }
 
         pbar.finish();
+    }
+
+    #[cfg(kmertools_verif)]
+    pub fn verif_chunks_parts(&self) -> (u64, u64) {
+        (self.chunks, self.n_parts)
     }
 
     pub fn init(&mut self) {
